@@ -323,6 +323,84 @@ func VerifC03_URNs() {
 	verifApplyAndCheck(verifEng(640), env, sa, groups, c, NewURNs(list, m))
 }
 
+type verifChannel struct {
+	uuid    assets.ChannelUUID
+	schemes []string
+	roles   []assets.ChannelRole
+}
+
+func (c *verifChannel) UUID() assets.ChannelUUID          { return c.uuid }
+func (c *verifChannel) Name() string                      { return "Channel " + string(c.uuid) }
+func (c *verifChannel) Address() string                   { return "addr" }
+func (c *verifChannel) Schemes() []string                 { return c.schemes }
+func (c *verifChannel) Roles() []assets.ChannelRole       { return c.roles }
+func (c *verifChannel) Features() []assets.ChannelFeature { return nil }
+func (c *verifChannel) Country() i18n.Country             { return "" }
+func (c *verifChannel) MatchPrefixes() []string           { return nil }
+func (c *verifChannel) AllowInternational() bool          { return false }
+
+// VerifC03_Channel: channel modifier (nil, a twitter channel, a channel for
+// twitter and mailto, a channel that cannot send) over a contact holding any
+// ordered sub-list of three URNs, each with no channel affinity or an
+// affinity to either sending channel: setting the preferred channel changes
+// affinities and/or the order of the URNs; any such change is announced by a
+// URNs event that reproduces the list, and only then is modified reported.
+// cover: changed, unchanged, reordered-only, cleared, cannot-send
+func VerifC03_Channel() {
+	env := envs.NewBuilder().Build()
+	sa, groups := verifWorld(env, contactql.NewCondition(contactql.PropertyTypeURN, "twitter", contactql.OpNotEqual, ""))
+	send := []assets.ChannelRole{assets.ChannelRoleSend, assets.ChannelRoleReceive}
+	sa.chans = flows.NewChannelAssets([]assets.Channel{
+		&verifChannel{"c0000000-0000-4000-8000-000000000001", []string{"twitter"}, send},
+		&verifChannel{"c0000000-0000-4000-8000-000000000002", []string{"twitter", "mailto"}, send},
+		&verifChannel{"c0000000-0000-4000-8000-000000000003", []string{"twitter"}, []assets.ChannelRole{assets.ChannelRoleReceive}},
+	})
+	chans := []*flows.Channel{sa.chans.Get("c0000000-0000-4000-8000-000000000001"), sa.chans.Get("c0000000-0000-4000-8000-000000000002"), sa.chans.Get("c0000000-0000-4000-8000-000000000003")}
+	c := flows.NewEmptyContact(sa, "Bob", "eng", nil)
+	for _, u := range verifURNs {
+		if zzverif.Choice("has-urn", 2) == 1 {
+			c.AddURN(u, nil)
+			if k := zzverif.Choice("urn-channel", 3); k > 0 {
+				c.URNs()[len(c.URNs())-1].SetChannel(chans[k-1])
+			}
+		}
+	}
+	c.Groups().Add(groups[2])
+	if len(c.URNs()) == 0 || (len(c.URNs()) == 1 && c.URNs()[0].URN().Scheme() == "mailto") {
+		c.Groups().Remove(groups[2])
+	}
+	var ch *flows.Channel
+	switch k := zzverif.Choice("preferred-channel", 4); k {
+	case 0:
+		zzverif.Cover("cleared")
+	case 3:
+		ch = chans[2]
+		zzverif.Cover("cannot-send")
+	default:
+		ch = chans[k-1]
+	}
+	before := verifView(c, sa)
+	verifApplyAndCheck(verifEng(640), env, sa, groups, c, NewChannel(ch))
+	after := verifView(c, sa)
+	if !verifSameView(before, after, groups) {
+		sameAffinities := len(before.urns) == len(after.urns)
+		for _, b := range before.urns {
+			found := false
+			for _, a := range after.urns {
+				if a == b {
+					found = true
+				}
+			}
+			if !found {
+				sameAffinities = false
+			}
+		}
+		if sameAffinities {
+			zzverif.Cover("reordered-only")
+		}
+	}
+}
+
 // VerifC03_Groups: groups modifier (add / remove) with lists of up to two
 // groups incl. a query based one, any contact status.
 // cover: changed, unchanged, query-group-in-list, blocked
